@@ -105,6 +105,15 @@ theorem C20_with_items_support_protocol :
   intro w hw
   exact (List.all_eq_true.mp h) w hw
 
+/-- every numpy type name that the source writes as a STRING literal (`dtype='…'`, `.astype('…')`, `np.dtype('…')`) is
+understood by the installed numpy: a library name that only occurs inside a string is an interface all the same
+(`'float_'` was removed together with `np.float_`) -/
+theorem C20_dtype_literals_understood :
+    ∀ d ∈ Refs.dtypeLiterals, d.2.2.2 = true := by
+  have h : Refs.dtypeLiterals.all (fun d => d.2.2.2) = true := by decide +kernel
+  intro d hd
+  exact (List.all_eq_true.mp h) d hd
+
 /-! non-vacuity: the tables are not empty and contain unguarded references that are checked -/
 example : 100 < Refs.refs.length ∧ 10 < Env.modules.length := by decide +kernel
 example : (Refs.refs.filter (fun r => !r.guarded)).length > 100 := by decide +kernel
@@ -118,3 +127,7 @@ example : 20 < Refs.syntaxTable.length ∧ Refs.declaredPython = (3, 6) := by de
 example : 20 < Refs.kwrefs.length ∧ 10 < Env.signatures.length := by decide +kernel
 example : 5 < Refs.optionalOnlyNames := by decide +kernel
 example : 5 < Refs.withItems.length := by decide +kernel
+-- the source has no numpy type name as a string literal at present, so `C20_dtype_literals_understood` ranges over an
+-- empty table; the row shape it would reject (what seeded change C20_15 produces):
+example : ([("pyrex/signals.py", 1, "float_", false)] : List (String × Nat × String × Bool)).all (fun d => d.2.2.2) = false := by
+  decide
